@@ -34,6 +34,7 @@ SHAPE_BY_NAME = {
     "L1_norm": "normal", "L2_nosnv": "nosnv", "L3_noreads": "noreads", "L4_refabs2": "refabsent",
     "L5_refabs1": "refabsent1", "L6_partial": "normal", "L7_empty": "nosnv", "L8_multi": "normal",
     "L1_zeroalt": "zeroalt", "L1_af0": "af0", "L1_maskref": "refabsent", "L2_noa": "noa", "L8_rare": "normal",
+    "L1_zerolast": "zerolast", "L8_zerolast2": "zerolast", "L8_zeroends": "zerolast", "L1_zeroref": "zeroref", "L6_onlyref": "onlyref",
 }
 
 
@@ -195,7 +196,7 @@ def plan_runs(ck, configs, dsets):
 
 def repo_runs(ck):
     """Happy path on the repository's own data (three option sets per program)."""
-    S = datasets.repo_simple(env.REPO)
+    S = datasets.repo_simple(env.REPO, os.path.join(ck.wd, "repo-data"))
     runs = []
     mixed = S["bams"]["mixed"]
     for k, (prog, extra, rep) in enumerate([
@@ -244,8 +245,10 @@ def observed_shape(rec, run):
     # call programs: the hand-made specials depend on the prior / filter options of the run
     if nm == "af0":
         return "noa" if run.get("filter") else ("af0" if run.get("prior") else "normal")
-    if nm == "zeroalt":
-        return "normal" if run.get("filter") or not run.get("prior") else "zeroalt"
+    if nm in ("zeroalt", "zerolast", "onlyref"):
+        return "normal" if run.get("filter") or not run.get("prior") else nm
+    if nm == "zeroref":     # a zero prior on the reference = masked reference (with the filter: REFMASKED flag set)
+        return "refabsent" if run.get("filter") else ("zeroref" if run.get("prior") else "normal")
     return nm
 
 
